@@ -62,23 +62,43 @@ def decorated(draw):
         a = uid()
         return t % tuple([a] + [draw(st.integers(0, 99)) for _ in range(n - 1)]) if n else t
 
+    def splice_run(block):
+        # physical lines that consist of a backslash only: they are spliced to the following line, which starts
+        # with further splices or with ordinary text (never a directive), and each still counts as a line
+        for _ in range(draw(st.integers(1, 3))):
+            lines.append("\\")
+        lines.append(filler(block))
+        labels.add("splice-run-after-directive")
+
     def decorate(block):
-        d = draw(st.integers(0, 11))
+        d = draw(st.integers(0, 12))
+        if d == 12:
+            for _ in range(draw(st.integers(1, 3))):
+                lines.append("\\")
+            lines.append(filler(block))
+            labels.add("splice-run")
+            return
         if d == 0:
             lines.append("# %d \"%s\"%s" % (draw(st.integers(1, 5000)), draw(st.sampled_from(NAMES)), draw(st.sampled_from(["", " 1", " 2", " 1 3", " 3 4"]))))
             labels.add("marker")
-            if draw(st.booleans()):
+            if draw(st.integers(0, 3)) == 0:
+                splice_run(block)
+            elif draw(st.booleans()):
                 lines.append("")
                 labels.add("marker-followed-by-blank-line")
         elif d == 1:
             lines.append("#line %d" % draw(st.integers(1, 99999)))
             labels.add("line-directive")
-            if draw(st.integers(0, 2)) == 0:
+            if draw(st.integers(0, 3)) == 0:
+                splice_run(block)
+            elif draw(st.integers(0, 2)) == 0:
                 lines.append("")
                 labels.add("marker-followed-by-blank-line")
         elif d == 2:
             lines.append("#line %d \"%s\"" % (draw(st.integers(1, 99999)), draw(st.sampled_from(NAMES))))
             labels.add("line-directive-file")
+            if draw(st.integers(0, 3)) == 0:
+                splice_run(block)
         elif d == 3:
             for _ in range(draw(st.integers(1, 3))):
                 lines.append("")
